@@ -186,18 +186,18 @@ Print Assumptions C06_readd_gets_new_owner.
 (* every request of every register/unregister/request history, whatever the Transport chose to
    reuse and however requests in flight overlap route changes, reaches exactly the owner of the most
    specific route registered at that moment — or gets the not-found answer and reaches no backend *)
-Theorem C06_request_reaches_current_best_match : forall ops st rid cc proto host path user dialed st' out,
-  hp_run ops = Some st ->
+Theorem C06_request_reaches_current_best_match_partial : forall ops st rid cc proto host path user dialed st' out,
+  Forall hq_no_group ops -> hp_run ops = Some st ->
   hp_step st (HBegin rid cc proto host path user dialed) = Some (st', out) ->
   out = hp_spec_out rc_owner (rt_abs (hp_routes st)) host path user.
 Proof. exact hq_request_reaches_current_best_match. Qed.
-Print Assumptions C06_request_reaches_current_best_match.
+Print Assumptions C06_request_reaches_current_best_match_partial.
 
 (* once a route has been closed and re-registered by another proxy, no new request selected by that
    triple reaches the former owner's backend: it reaches the new owner, also over reused connections *)
 Theorem C06_reregistered_route_never_reaches_old_owner :
   forall ops d l u newowner reqs st rid cc proto host path user dialed st' b r,
-  Forall hq_is_traffic reqs ->
+  Forall hq_no_group ops -> Forall hq_is_traffic reqs ->
   hp_run (ops ++ [HUnRegister d l u; HRegister d l u newowner] ++ reqs) = Some st ->
   hp_step st (HBegin rid cc proto host path user dialed) = Some (st', HReached b) ->
   rs_best_match (rt_abs (hp_routes st)) (rt_canon_or_empty host) path user = Some r ->
@@ -209,12 +209,25 @@ Print Assumptions C06_reregistered_route_never_reaches_old_owner.
 (* a removed route is not reached any more, even though connections to its backend may still be
    in flight or idle: the backend reached always owns a currently registered, matching route *)
 Theorem C06_unregistered_owner_not_reached : forall ops st rid cc proto host path user dialed st' b,
-  hp_run ops = Some st ->
+  Forall hq_no_group ops -> hp_run ops = Some st ->
   hp_step st (HBegin rid cc proto host path user dialed) = Some (st', HReached b) ->
   exists r, In r (rt_abs (hp_routes st)) /\ rs_matches r (rt_canon_or_empty host) path user = true /\
             rc_owner (rt_pay r) = b.
 Proof. exact hq_unregistered_owner_not_reached. Qed.
 Print Assumptions C06_unregistered_owner_not_reached.
+
+(* REFUTED for routes that server/group/http.go registers (load-balancing groups): such a route gets
+   no registration number and leaving the group closes no idle connection, so after the member left
+   and a proxy of the same name joined again for another owner, a request reaches the FORMER owner's
+   backend over the reused connection.  Witness replayed on the real code by driver `group`.
+   [hq_no_group] above excludes exactly these two operations. *)
+Theorem C06_group_reregistered_route_reaches_old_owner_refuted :
+  exists st st',
+    hp_run hq_group_witness = Some st /\
+    hp_step st (HBegin 2 0 0 (hx "682e74657374") (hx "2f") [] false) = Some (st', HReached 1) /\
+    hp_spec_out rc_owner (rt_abs (hp_routes st)) (hx "682e74657374") (hx "2f") [] = HReached 2.
+Proof. exact hq_group_route_reaches_former_owner. Qed.
+Print Assumptions C06_group_reregistered_route_reaches_old_owner_refuted.
 
 (* every stream of a cleartext HTTP/2 connection is routed on its own: the outcome of a request does
    not depend on the client connection or stream it arrives on *)
@@ -243,7 +256,8 @@ Example C06_example_selection :
   length (rt_abs (rt_run ex_hist)) = 6%nat /\
   rt_canonical_host (hx "4578616d706c652e434f4d2e3a38303830") = Some (hx "6578616d706c652e636f6d") /\
   rt_canonical_host (hx "5b3a3a315d3a3830") = Some (hx "3a3a31") /\
-  rt_canonical_host (hx "613a623a63") = None.
+  rt_canonical_host (hx "613a623a63") = Some (hx "613a623a63") /\
+  rt_canonical_host (hx "5b613a3830") = None.
 Proof. vm_compute. repeat split. Qed.
 
 (* the witness history of the repaired defect: register A, request (connection stays idle), a second
